@@ -86,7 +86,7 @@ namespace GeographicLib {
       real
         lon0 = CentralMeridian(zone1),
         dlon = Math::AngDiff(lon0, lon);
-      if (!(dlon <= 60))
+      if (!(fabs(dlon) <= 60))
         // Check isn't really necessary because CheckCoords catches this case.
         // But this allows a more meaningful error message to be given.
         throw GeographicErr("Longitude " + Utility::str(lon)
